@@ -767,7 +767,7 @@ def _work_cli(vm, d):
 
         yield "cli:relative-output-from-another-directory", relative_output, False, "local.tgz"
         lst = sorted(os.listdir(outdir))
-        if "local.tgz" not in lst or not set(lst) <= {"local.tgz", "out.bin", "out2.bin", "cases", "current"}:
+        if "local.tgz" not in lst or not set(lst) <= {"local.tgz", "out.bin", "out2.bin", "cases", "current", "sealed"}:
             yield "cli:relative-output-misplaced:" + ",".join(lst), (lambda: (_ for _ in ()).throw(AssertionError("relative --output not written to the working directory: %r" % lst))), False
         # an --output path that goes through a symbolic link to a directory and then '..': the operating system resolves it,
         # the tool writes to the path it was given
@@ -778,6 +778,26 @@ def _work_cli(vm, d):
         yield "cli:output-through-symlink-and-dotdot", run(os.path.join(vm, "local.tgz.ve"), os.path.join(vm, "encryption.info"), sym_out), False, sym_out
         if not os.path.exists(os.path.join(outdir, "cases", "out-sym.bin")) or os.path.exists(os.path.join(outdir, "out-sym.bin")):
             yield "cli:output-misplaced", (lambda: (_ for _ in ()).throw(AssertionError("--output through a symlink was written elsewhere"))), False
+        # an --output that already exists as a read-only file (a sealed earlier result): the tool writes to the path it was given
+        # or fails; it never invents another name beside it
+        sealed_dir = os.path.join(outdir, "sealed")
+        os.makedirs(sealed_dir, exist_ok=True)
+        sealed = os.path.join(sealed_dir, "local.tgz")
+        if not os.path.exists(sealed):
+            with open(sealed, "wb") as f:
+                f.write(b"earlier result")
+            os.chmod(sealed, 0o444)
+
+        def sealed_output():
+            try:
+                run(os.path.join(vm, "local.tgz.ve"), os.path.join(vm, "encryption.info"), sealed)()
+            except PermissionError:
+                pass
+
+        yield "cli:existing-read-only-output", sealed_output, False, sealed
+        lst = sorted(os.listdir(sealed_dir))
+        if lst != ["local.tgz"]:
+            yield "cli:file-nobody-named:" + ",".join(lst), (lambda: (_ for _ in ()).throw(AssertionError("files beside the named --output: %r" % lst))), False
         yield "cli:missing-input", run(os.path.join(vm, "nothere.ve"), os.path.join(vm, "encryption.info"), os.path.join(outdir, "o3")), True
 
         def no_output_argument():
